@@ -63,8 +63,10 @@ def item_strategy(size_class):
 def section_strategy(size_class):
     return st.fixed_dictionaries({
         "name": st.integers(0, len(SEC_NAMES) - 1),
-        "al": st.integers(0, 4),
-        "items": st.lists(item_strategy(size_class), min_size=0, max_size=8),
+        # wild merges only sections with sh_addralign <= 1 (part_id::should_merge_sections), so most
+        # sections get alignment 1; the others exercise the unmerged path with the same oracles.
+        "al": st.sampled_from([0, 0, 0, 0, 0, 1, 3, 4]),
+        "items": st.lists(item_strategy(size_class), min_size=0, max_size=8 if size_class != "large" else 3),
         "unterminated": st.sampled_from([False] * 24 + [True]),
     })
 
@@ -72,6 +74,7 @@ def section_strategy(size_class):
 def cst_strategy():
     return st.one_of(st.none(), st.none(), st.fixed_dictionaries({
         "es": st.sampled_from([4, 8, 16]),
+        "al1": st.booleans(),
         "elems": st.lists(st.integers(0, 3), min_size=1, max_size=6),
     }))
 
@@ -114,7 +117,7 @@ def case_strategy(tier):
         return st.fixed_dictionaries({
             "size": st.just(size_class),
             "objs": st.lists(st.fixed_dictionaries({
-                "secs": st.lists(section_strategy(size_class), min_size=0, max_size=4),
+                "secs": st.lists(section_strategy(size_class), min_size=0, max_size=4 if size_class != "large" else 2),
                 "cst": cst_strategy(),
             }), min_size=1, max_size=6 if size_class != "large" else 3).map(ensure_nonempty),
             "refs": st.lists(ref_strategy(), min_size=1, max_size=12),
@@ -306,7 +309,8 @@ def emit_object(oi, o, cst_refs, d):
     if cst:
         es = cst["es"]
         lines.append(f'.section .rodata.cst{es},"aM",@progbits,{es}')
-        lines.append(f".p2align {es.bit_length() - 1}")
+        if not cst.get("al1"):
+            lines.append(f".p2align {es.bit_length() - 1}")
         lines.append(f".Lc{oi}:")
         for v in cst["elems"]:
             lines.append(".byte " + ",".join(str((0x41 + v + j) & 0xff) for j in range(es)))
@@ -615,8 +619,8 @@ class C07(Check):
                     raise Inconclusive(f.msg)
                 raise Violation("unterminated-accepted-wrong:" + f.sig, "wild accepted an unterminated merge string "
                                 "without a diagnostic and the output is wrong: " + f.msg)
-            live = any(s.unterminated and s.nrefs for o in objs for s in o["secs"])
-            info["classes"].append("unterminated:accepted-ok:" + ("referenced" if live else "unreferenced-section"))
+            live = any(s.unterminated and s.nrefs and s.al == 0 for o in objs for s in o["secs"])
+            info["classes"].append("unterminated:accepted-ok:" + ("merged-referenced" if live else "unreferenced-or-unmerged-section"))
             info["nontrivial"] = False
             info["key"] = "unterminated"
             return info
